@@ -7,6 +7,7 @@ CONSTANTS
   Admissible <- MCAdmissible
   MaxVariants = 2
   MaxFields = 3
+  Narrow = FALSE
   Vals = {0, 1}
 INVARIANTS ImplMeetsProp CloneFromIsClone
 CHECK_DEADLOCK FALSE
